@@ -569,3 +569,89 @@ def write_pandas_cells(dummy: bool) -> bool:
     post: _
     """
     return done(fast.native(_cells))
+
+
+# ------------------------------------------------------------------ (b) bound values reach the engine as the literals that denote them
+PVALS = ["plain", "it's", "a\\b", "l1\nl2", "US$100", "$HOME", "$v1 per unit", "100% $x", "", "é中🙂", "'; drop table t1; --", "/* c */", "?"]
+
+
+def _bound_values(pi: int, n: int, defined: bool, many: bool) -> bool:
+    from sqlglot import exp as E
+    from sqlglot import parse_one
+
+    from vf.session import instance, std_engine
+    from vf.sqlunit import duckdb_read_literal
+
+    eng = std_engine()
+    conn = instance(eng).connect(database="db1", schema="s1")
+    cur = conn.cursor()
+    if defined:
+        cur.execute("set v1 = 5")
+        cur.execute("set home = 'h'")
+    s = PVALS[pi]
+    base = len(eng.log)
+    if many:
+        cur.executemany("insert into t1 (a, b) values (%s, %s)", [(n, s), (n + 1, s)])
+    else:
+        cur.execute("insert into t1 (a, b) values (%(a)s, %(b)s)", {"a": n, "b": s})
+    inserts = [q for _c, q in eng.log[base:] if isinstance(q, str) and q.lstrip().upper().startswith("INSERT")]
+    if len(inserts) != (2 if many else 1):
+        return False
+    for k, q in enumerate(inserts):
+        tree = parse_one(q, read="duckdb")
+        tup = tree.find(E.Values).expressions[0].expressions
+        if len(tup) != 2:
+            return False
+        a, b = tup
+        av = -int(a.this.this) if isinstance(a, E.Neg) else int(a.this)
+        if av != n + k or not (isinstance(b, E.Literal) and b.is_string):
+            return False
+        # what DuckDB reads from the literal text fakesnow wrote
+        start = q.index("VALUES")
+        lit = q[q.index("'", start) : q.rindex("'") + 1]
+        if duckdb_read_literal(lit) != s:
+            return False
+    return True
+
+
+@ob(
+    "C01.bound_values_reach_the_engine_unchanged",
+    encodes=["fakesnow.cursor.FakeSnowflakeCursor.execute/executemany/_rewrite_with_params/_inline_variables (ordering)", "sqlglot Snowflake parse -> DuckDB generate of the bound literal"],
+    bounds="13 parameter strings (quotes, backslashes, newlines, $name / $digit, %, unicode incl. astral, comment markers, ?, empty) x an int -3..12 bound "
+    "next to them x session variables with matching names defined or not x execute (dict) / executemany (tuples): the INSERT reaching the engine carries "
+    "literals that DuckDB reads back as exactly the bound values",
+    timeout=(300, 600),
+    stubs=["K1/K2 vf.duckstub.Engine", "K2-literal duckdb_read_literal"],
+    shards=(13, 13),
+)
+def bound_values(pi: int, n: int, defined: bool, many: bool) -> bool:
+    """
+    pre: 0 <= pi < len(PVALS) and -3 <= n <= 12 and (SHARD < 0 or pi == SHARD)
+    post: _
+    """
+    return done(fast.native(_bound_values, fast.pick(pi, len(PVALS)), fast.pick(n + 3, 16) - 3, bool(fast.pick(defined, 2)), bool(fast.pick(many, 2))))
+
+
+def _real_bound(a: dict):
+    from vf.real import real_cursor
+
+    fs, conn, cur = real_cursor(False)
+    cur.execute("create table t1 (a int, b varchar)")
+    if a["defined"]:
+        cur.execute("set v1 = 5")
+        cur.execute("set home = 'h'")
+    s, n = PVALS[a["pi"]], a["n"]
+    try:
+        if a["many"]:
+            cur.executemany("insert into t1 (a, b) values (%s, %s)", [(n, s), (n + 1, s)])
+            want = [(n, s), (n + 1, s)]
+        else:
+            cur.execute("insert into t1 (a, b) values (%(a)s, %(b)s)", {"a": n, "b": s})
+            want = [(n, s)]
+        got = cur.execute("select a, b from t1 order by a").fetchall()
+    except Exception as e:  # noqa: BLE001
+        return True, f"real stack raised {type(e).__name__}: {str(e)[:100]}"
+    return got != want, f"real stack: stored {got!r}, bound {want!r}"
+
+
+REGISTRY["C01.bound_values_reach_the_engine_unchanged"].real_replay = _real_bound
